@@ -237,6 +237,7 @@ def check_as_samples_forms(ctx, r, B):
         nel = r.choice([1, 2, 2, 3, 4])
         elems, toks, truth = [], [], []
         bad_at = r.randrange(nel) if nel >= 2 and r.random() < .2 else None
+        first_order = None
         for i in range(nel):
             ek = r.choice(['dict', 'dict', 'lab', 'lab1', 'ss'])
             k = 1 if ek in ('dict', 'lab1') else r.choice([1, 2, 3])
@@ -246,6 +247,14 @@ def check_as_samples_forms(ctx, r, B):
             rows = [{l: r.choice([-2, -1, 0, 1, 3]) for l in ls} for _ in range(k)]
             e, t = sl_elem(r, ek, rows, ls)
             elems.append(e); toks.append(t); truth.append(rows)
+            # branch of `_as_samples_iterator` this element takes (labels == first_labels / re-index / ValueError)
+            order_i = t.split(' ')[-1] if ek != 'dict' else ','.join(kv.split('=')[0] for kv in t.split(' ')[1].split(','))
+            if i == 0:
+                first_order = order_i
+            else:
+                ctx.tick('as_samples branch: iterator element ' + ('with another label set' if i == bad_at else
+                                                                   'in the first element\'s label order' if order_i == first_order else 're-indexed'))
+            ctx.tick(f'as_samples branch: iterator element of form {ek}')
         if bad_at == 0:
             bad_at = None
         has_map = any(e.startswith('{') for e in elems)
@@ -386,6 +395,7 @@ def check_as_samples_forms(ctx, r, B):
                 ctx.fail('property', 'as_samples', ic, f'delivered {arr.tolist()} (dtype {arr.dtype}) for {mat}', repro=repro, detail=dict(input=expr))
                 return
             out = f'ok {arr.dtype.name} {introws_tok(arr.tolist())}'
+            ctx.tick(f'as_samples branch: _sample_array picked {arr.dtype.name}')
         else:
             ctx.fail('property', 'as_samples', ic, f'valid input rejected ({out}): {expr}', repro=repro)
         if form != 'dicts' or k == 1:   # a list of dicts picks the type per element and lets vstack promote
